@@ -158,3 +158,99 @@ def origin_leaves(e):
         else:
             out.append(x)
     return out
+
+
+def backslice(prog, fn, e, max_nodes=4000):
+    """Backward data slice of expression e inside fn: all sub-expressions, following
+    named variables to every one of their definitions (and partial writes).
+    Returns (calls, places, nodes)."""
+    eb = ExprBuilder(prog, fn)
+    names = {vn: l for vn, l, proj in fn.var_places if not proj}
+    seen_vars = set()
+    calls = []
+    places = set()
+    nodes = []
+    st = [e]
+    while st and len(nodes) < max_nodes:
+        x = st.pop()
+        for y in walk(x):
+            nodes.append(y)
+            if y[0] == "call":
+                calls.append(y)
+            elif y[0] == "place":
+                places.add(y[1])
+                root = y[1]
+                for ch in ".@[":
+                    root = root.split(ch)[0]
+                if root in names and root not in seen_vars:
+                    seen_vars.add(root)
+                    l = names[root]
+                    for d in fn.defs(l):
+                        if d[0] in ("assign", "call", "yield"):
+                            st.append(eb._def_expr(d, 0, (l,)))
+                        elif d[0] == "partial":
+                            s = d[3]
+                            if isinstance(s, dict) and s.get("k") == "assign":
+                                st.append(eb.rvalue(s["rv"]))
+    return calls, places, nodes
+
+
+def local_uses(fn, local):
+    """Statements/terminators that read `local` (as an operand or in a place)."""
+    out = []
+
+    def op_reads(o):
+        return o.get("k") in ("copy", "move") and (o["place"]["local"] == local or any(e.get("k") == "index" and e.get("local") == local for e in o["place"]["proj"]))
+
+    def rv_reads(rv):
+        k = rv["k"]
+        if k in ("use", "cast", "repeat"):
+            return op_reads(rv["op"])
+        if k in ("ref", "rawptr", "discr"):
+            return rv["place"]["local"] == local
+        if k == "binop":
+            return op_reads(rv["a"]) or op_reads(rv["b"])
+        if k == "unop":
+            return op_reads(rv["a"])
+        if k == "agg":
+            return any(op_reads(o) for o in rv["ops"])
+        return False
+
+    for b in fn.live_blocks():
+        blk = fn.blocks[b]
+        for j, s in enumerate(blk["stmts"]):
+            if s["k"] == "assign" and rv_reads(s["rv"]):
+                out.append(("stmt", b, j, s))
+        t = blk["term"]
+        if t["k"] == "call":
+            if any(op_reads(a) for a in t["args"]) or op_reads(t["func"]):
+                out.append(("call", b, -1, t))
+        elif t["k"] == "switch" and op_reads(t["discr"]):
+            out.append(("switch", b, -1, t))
+        elif t["k"] == "assert" and op_reads(t["cond"]):
+            out.append(("assert", b, -1, t))
+    return out
+
+
+def flows_to_place(fn, local, target_str, depth=0, seen=None):
+    """Does the value of `local` flow (through assignments and arithmetic) into the
+    place named target_str?"""
+    seen = seen if seen is not None else set()
+    if local in seen or depth > 12:
+        return False
+    seen.add(local)
+    for kind, b, j, s in local_uses(fn, local):
+        if kind == "stmt":
+            ps = fn.place_str(s["place"])
+            if ps == target_str:
+                return True
+            if not s["place"]["proj"] and flows_to_place(fn, s["place"]["local"], target_str, depth + 1, seen):
+                return True
+        elif kind == "call":
+            # value passed to a call: flows into the call's destination
+            ps = fn.place_str(s["dest"])
+            if ps == target_str:
+                return True
+            if not s["dest"]["proj"] and flows_to_place(fn, s["dest"]["local"], target_str, depth + 1, seen):
+                return True
+    return False
